@@ -2,7 +2,8 @@
 
 verify(): given {seed: digest} obtained by a batch, re-execute each seed (a) again in this process
 (reload isolation, second time), and (b) as the very first run of a brand-new interpreter started
-under a different PYTHONHASHSEED (true process isolation).  All digests must agree; any mismatch is
+under a different PYTHONHASHSEED and with lark's real parser
+constructor (true process isolation, no construction shortcut).  All digests must agree; any mismatch is
 a harness error (exit 2), never a violation.  (b) also cross-validates reload isolation against
 real fresh-process isolation.
 
@@ -39,7 +40,9 @@ print("DIGESTS " + json.dumps(out))
 
 
 def _fresh_interpreter(modname: str, tier: str, seeds: List[int], hashseed: str) -> Dict[str, Any]:
-    env = dict(os.environ, PYTHONHASHSEED=hashseed)
+    # ... and with the real Lark constructor throughout (the batch uses the simulator's fast
+    # construction of identical parsers, kit._patch_lark): the digests must not notice
+    env = dict(os.environ, PYTHONHASHSEED=hashseed, VERIF_REAL_LARK="1")
     code = _SNIPPET.format(verif=kit.VERIF, modname=modname, seeds=seeds, tier=tier)
     # run from a file, not with -c: the main module of `python -c` has the file name "<string>",
     # which is also the file name of transpiled CEL programs
